@@ -67,7 +67,12 @@ def main():
 
     # run the checks against /repo with the patch applied
     det = {}
+    lock = None
     if confirmed:
+        # several properties may be evaluated in parallel; /repo is shared
+        import fcntl
+        lock = open("/tmp/seed-eval-repo.lock", "w")
+        fcntl.flock(lock, fcntl.LOCK_EX)
         st = sh("git status --porcelain", "/repo")[1].strip()
         if st:
             print("/repo not clean:", st)
@@ -101,6 +106,7 @@ def main():
                 shutil.rmtree(evdir, ignore_errors=True)
         finally:
             sh("git checkout -- .", "/repo")
+            lock.close()
     res["detection"] = det
     caught_by = [p for p, d in det.items() if d["exit"] == 1]
     errors = [p for p, d in det.items() if d["exit"] not in (0, 1)]
